@@ -1,4 +1,10 @@
 import SamplyModel.Lemmas.PanicKernels
+import SamplyModel.Lemmas.C08Tied
+import SamplyModel.Lemmas.BreakpadServe
+import SamplyModel.Lemmas.JsonText
+import SamplyModel.Lemmas.SymindexBridge
+import SamplyModel.Props.C10
+import SamplyModel.Props.C07
 /-!
 # C08 — no request and no Breakpad symbol file can crash the symbolication API  (**partial**)
 
@@ -21,6 +27,15 @@ Hypotheses that appear, and why they are legitimate:
 
 The three repaired defects are kept as `…Legacy` kernels with `decide`-checked witnesses
 (`C08_legacy_*`) on the inputs recorded in KNOWN_FINDINGS.txt.
+
+Improvement round: the kernels whose `PK` model was tied to the code "by reading only" (`/asm/v1` length
+arithmetic, decode loop, `LineBuffer`, `.symindex` layout, Breakpad lookups) are now connected by theorems to
+the models other properties compare with the code value-for-value (`Asm.*` — C20, `LB.*` / `BP.*` — C10,
+`Sym.queryApi` — C07), see the section "the same facts on the models that are tied"; lookups on arbitrary
+(stale, corrupted) indexes with the memo tables of the symbol map and `iter_symbols()` are modelled in
+`Model/BreakpadServe.lean` and compared by C08's own `bpmap` operation; the text `Api::query_api` returns
+(dispatch, the hand-built error object) is modelled in `Model/JsonText.lean` next to an independent RFC 8259
+recogniser that the judge runs on response texts (`C08_error_object_is_json`, `C08_api_text_acceptable`).
 Only property theorems (names `C08_*`) and non-vacuity examples live in this file.
 -/
 open PK
@@ -160,6 +175,373 @@ theorem C08_kernels_total_special_path (s : List UInt8) (h : asciiFollow s = tru
 theorem C08_utf8_gives_ascii_follow (s : List UInt8) (h : utf8Shape s = true) : asciiFollow s = true :=
   utf8Shape_asciiFollow s h
 
+/-! ### Improvement round: the same facts on the models that are tied to the code value-for-value
+
+`Asm.*` is driven by C20's harness (request arithmetic, read, decode loop, against the real `/asm/v1`),
+`LB.*` / `BP.*` by C10's (line buffer, index creator, `.symindex` (de)serialisation, `lookup_sync`) and — for
+stored indexes that are stale or corrupted, with the memo tables of the symbol map — by C08's own `bpmap`
+operation (`BPC.serve`); `Sym.queryApi` by C07's. The theorems below restate C08's clauses on those models, so
+that they stop being statements about models tied "by reading only". -/
+
+/-- **`/asm/v1` length arithmetic, tied.** The panic kernel `asmPlan` (explicit `panic` at the `u32`
+subtraction and addition) computes, for every request, exactly the plan of the model that C20 compares with
+the real code: aligned start, `disassembly_len`, padded read length — and never the `panic` outcome. -/
+theorem C08_asm_plan_tied (a : Asm.Arch) (start size : Nat) (cont : Bool) (fe : Option Nat) :
+    asmPlan (C08T.archOf a) start size cont fe =
+      .ok ⟨Asm.alignStart a start, Asm.disasmLen start size cont fe,
+           Asm.readSize (Asm.disasmLen start size cont fe)⟩ ∧
+    ∀ addr sz, functionEnd addr sz = Asm.fnEnd (some ⟨addr, sz⟩) :=
+  ⟨C08T.asmPlan_eq a start size cont fe, C08T.functionEnd_eq⟩
+
+/-- … hence the value-level bounds hold of the tied model (no silent wrap: the padded read length covers the
+listing length, both stay in `u32`, the listing is never shorter than requested), for every symbol the
+lookup may report. -/
+theorem C08_asm_tied_bounds (a : Asm.Arch) (start size : Nat) (cont : Bool) (sym : Option Asm.Sym)
+    (hs : size ≤ u32Max) :
+    Asm.alignStart a start ≤ start ∧
+    size ≤ Asm.disasmLen start size cont (Asm.fnEnd sym) ∧
+    Asm.disasmLen start size cont (Asm.fnEnd sym) ≤ Asm.readSize (Asm.disasmLen start size cont (Asm.fnEnd sym)) ∧
+    Asm.readSize (Asm.disasmLen start size cont (Asm.fnEnd sym)) ≤ u32Max := by
+  have hf : ∀ e, Asm.fnEnd sym = some e → e ≤ u32Max := by
+    intro e he
+    unfold Asm.fnEnd at he
+    split at he
+    · cases he
+    · split at he
+      · cases he
+      · split at he
+        · cases he; simpa [u32Max, Asm.u32max] using ‹_ ≤ Asm.u32max›
+        · cases he
+  obtain ⟨p, hp, h1, h2, _, h4, h5⟩ := C08_asm_plan_bounds (C08T.archOf a) start size cont (Asm.fnEnd sym) hs hf
+  rw [C08T.asmPlan_eq] at hp
+  cases hp
+  exact ⟨h1, h2, h5, h4⟩
+
+/-- **Decode loop, tied.** `Asm.decode` (the loop C20 compares with the real listing, offset by offset) ends
+with a listing — neither `panic` (`offset += …` in `u32`, `&bytes[offset as usize..]`) nor out of fuel — for
+every decoder oracle that stays inside the slice, every `ADJUST_BY_AFTER_ERROR ≥ 1`, every decode length and
+every slice below 4 GiB − ADJUST; the reported size is at most ADJUST past the slice. -/
+theorem C08_decode_total_tied (adjust decodeLen bytesLen : Nat) (dec : Nat → Asm.Dec)
+    (hor : Asm.OracleOK bytesLen dec) (hadj : 1 ≤ adjust) (hlen : bytesLen + adjust ≤ Asm.u32max) :
+    ∃ items size, Asm.decode adjust decodeLen bytesLen dec = .done items size ∧ size ≤ bytesLen + adjust := by
+  obtain ⟨items, f, h, hf, _⟩ :=
+    C08T.loop_done adjust decodeLen bytesLen dec hor hadj hlen (decodeLen + 1) 0 (Nat.zero_le _) (by omega)
+  exact ⟨items, f, h, hf⟩
+
+/-- **`/asm/v1`, the whole request on the tied model.** `Asm.query` (length arithmetic, alignment, padded read
+through `read_bytes_at_relative_address` with `image_base.checked_add`, `decode_arch`, the decode loop) neither
+panics nor fails to terminate, for every architecture, image (any base, any sections / segments), symbol,
+request and decoder — provided only that the decoder stays inside the slice the read returns and that this slice
+is shorter than 4 GiB − 4 (a section of 4 GiB is outside what `object` hands out for the fixtures). -/
+theorem C08_asm_query_total_tied (arch : Asm.Arch) (img : Asm.Image) (sym : Option Asm.Sym) (req : Asm.Req)
+    (dec : Nat → Asm.Dec)
+    (hor : ∀ fo n, (Asm.plan arch img sym req).2.2 = .ok fo n → Asm.OracleOK n dec ∧ n + 4 ≤ Asm.u32max) :
+    Asm.query arch img sym req dec ≠ .panic ∧ Asm.query arch img sym req dec ≠ .nofuel :=
+  C08T.query_total arch img sym req dec hor
+
+/-- **The fine-grained decode kernel is the tied loop.** `PK.decodeLoop` follows asm/mod.rs:357-431 at the
+level of the reader (`total_offset` as `u32`, `after - before`, the reader re-created at `offset` after an
+invalid instruction); for every decoder that stays inside its slice it computes exactly the size that
+`Asm.decode` — the loop C20 compares with the real listing — reports, and panics / fails to terminate exactly
+when that does. So `C08_kernels_total_decode` is a statement about a tied model, and the assumed
+`DecContract.invalid_avail` is only needed for slices within ADJUST of 4 GiB (compare `C08_decode_total_tied`). -/
+theorem C08_decode_kernel_is_tied (dec : List UInt8 → Dec) (adjust : Nat) (bytes : List UInt8) (decodeLen : Nat)
+    (hok : ∀ s n, dec s = .ok n → 1 ≤ n ∧ n ≤ s.length) (ha : 1 ≤ adjust) (hb : bytes.length ≤ u32Max) :
+    decodeLoop dec adjust bytes decodeLen 0 0 0 =
+      C08T.toPK (Asm.decode adjust decodeLen bytes.length (fun p => C08T.convDec (dec (bytes.drop p)))) :=
+  C08T.decodeLoop_eq_tied dec adjust bytes decodeLen hok ha hb 0 0 0 rfl (Nat.zero_le _) (decodeLen + 1)
+    (by omega)
+
+/-- **LineBuffer, tied.** For every list of chunks fed to a fresh `LineBuffer` (so, for every intermediate
+state of every feeding): the `assert!` / `current_offset - leftover.len()` of the next `consume` hold and
+`finish` does not underflow. (The `u64` offset additions are not an outcome of `LB`; `C08_kernels_total_linebuffer`
+covers them on `PK.lbRun` for files below 2^64 bytes.) -/
+theorem C08_linebuffer_total_tied (chunks : List (List UInt8)) :
+    LB.consumeSafe (LB.consumeAll LB.St.init chunks).1 = true ∧
+    (LB.finish (LB.consumeAll LB.St.init chunks).1).isSome = true := by
+  have h := C08T.consumeAll_inv LB.St.init chunks (by simp [LB.Inv, LB.St.init])
+  exact ⟨by simpa [LB.consumeSafe, LB.Inv] using h, C08T.finish_isSome _ h⟩
+
+/-- **`parse_symindex_file`: the panic kernel is C10's byte-exact parser, and the oracle bit is gone.** With the
+module-info oracle bit of `PK.parseSymindex` instantiated by C10's *model* of the module-info parse
+(`C08T.modOk`: fresh `LineBuffer`, `module_line`, UTF-8 and `DebugId` checks as modelled in `BP.deriveModule`),
+the kernel accepts exactly the files `BP.parseSymindex` accepts, with the same module-info length and the same
+three counts — and is never `panic` — for ARBITRARY file contents. So the five `from_bytes(..).unwrap()`s and the
+four `checked_mul`s of index.rs:40-164 are unreachable-as-panics on a model that C10's and C08's runs both compare
+with the real parser (`symindex` prints `models-disagree` otherwise). -/
+theorem C08_symindex_kernel_is_tied (data : List UInt8) :
+    C08T.okPart (parseSymindex data (C08T.modOk data)) = (BP.parseSymindex data).map C08T.summary ∧
+    parseSymindex data (C08T.modOk data) ≠ .panic :=
+  C08T.parseSymindex_bridge data
+
+/-- **`serialize_to_bytes` layout arithmetic, tied and exact.** For every index value, the `u32` computation of
+index.rs:166-182 (every step an explicit `panic` in `PK.symindexLayout`) succeeds exactly when the total length
+of C10's byte-exact serialisation model fits in `u32`, and then yields exactly that length (so the
+`assert_eq!(vec.len(), total_file_len)` at :206 compares the two quantities this theorem equates). This replaces
+the hypothesis "below 4 GiB − 3" of `C08_kernels_total_symindex_layout_partial` by the exact boundary; what
+remains excluded is the region itself (an index of 4 GiB or more), see `C08_symindex_layout_excluded`. -/
+theorem C08_symindex_layout_tied (ix : BP.Index) :
+    symindexLayout ix.moduleInfo.length ix.files.length ix.origins.length ix.addrs.length =
+      (if BP.totalLen ix < BP.pow32 then .ok (BP.totalLen ix) else .panic) := by
+  rw [C08T.totalLen_eq]
+  split
+  · rename_i h
+    exact C08T.symindexLayout_exact _ _ _ _ (by simp only [BP.pow32] at h; simp only [u32Max]; omega)
+  · rename_i h
+    exact C08T.symindexLayout_panic _ _ _ _ (by simp only [BP.pow32] at h; simp only [u32Max]; omega)
+
+/-- `parse_symindex_file` only accepts files whose two symbol arrays are equally long — the one fact about an
+accepted index (valid, stale or corrupted) that the lookups need. -/
+theorem C08_symindex_accepted_arrays (bytes : List UInt8) (ix : BP.Index)
+    (h : BP.parseSymindex bytes = some ix) : ix.addrs.length = ix.entries.length :=
+  BPC.parseSymindex_lengths bytes ix h
+
+/-- **Clause (f), n records, any index.** A `.sym` text with ARBITRARY contents served together with a stored
+`.symindex` with ARBITRARY contents (valid, built from another file, corrupted, unsorted), then any sequence
+of lookups on the one symbol map (memo tables included): whenever the index is accepted, every lookup returns
+a result or nothing — never the out-of-range `symbol_addresses[index]` / `symbol_entries[index]` — and every
+result satisfies what the API layers compute with it without checking: `symbol.address ≤ address`
+(symbolicate/mod.rs:231 `frame.address - symbol_address`) and a non-empty frame list (:237 `split_last().expect`).
+`BPC.serve` is compared value-for-value with the real code by the `bpmap` operation. -/
+theorem C08_served_lookups_total (text idx : List UInt8) (addrs : List Nat) (ls : List BP.Look)
+    (h : BPC.serve text idx addrs = .looks ls) :
+    ls.length = addrs.length ∧
+    ∀ (k a : Nat), addrs[k]? = some a →
+      ∃ lk : BP.Look, ls[k]? = some lk ∧ lk ≠ BP.Look.panic ∧
+        ∀ r : BP.LookupResult, lk = BP.Look.found r → r.symAddr ≤ a ∧ r.frames ≠ some [] := by
+  unfold BPC.serve at h
+  split at h
+  · cases h
+  · rename_i ix hix
+    split at h
+    · cases h
+    · cases h
+      exact BPC.lookupSeq_spec text ix _ addrs (BPC.parseSymindex_lengths idx ix hix)
+
+/-- … and the same with an `iter_symbols()` pass (symbol_map.rs:244-272, sharing the memo tables) between two
+runs of lookups: the pass never indexes `symbol_entries` out of range, and the lookups before and after it
+return a result or nothing with the same two guarantees. (`BPC.serveSession`, compared value-for-value by the
+`bpmap … iter …` operation.) -/
+theorem C08_served_session_total (text idx : List UInt8) (pre post : List Nat) (ls1 ls2 : List BP.Look)
+    (names : Option (List (Nat × List UInt8)))
+    (h : BPC.serveSession text idx pre post = .session ls1 names ls2) :
+    names ≠ none ∧
+    (∀ (k a : Nat), pre[k]? = some a →
+      ∃ lk : BP.Look, ls1[k]? = some lk ∧ lk ≠ BP.Look.panic ∧
+        ∀ r : BP.LookupResult, lk = BP.Look.found r → r.symAddr ≤ a ∧ r.frames ≠ some []) ∧
+    (∀ (k a : Nat), post[k]? = some a →
+      ∃ lk : BP.Look, ls2[k]? = some lk ∧ lk ≠ BP.Look.panic ∧
+        ∀ r : BP.LookupResult, lk = BP.Look.found r → r.symAddr ≤ a ∧ r.frames ≠ some []) := by
+  unfold BPC.serveSession at h
+  split at h
+  · cases h
+  · rename_i ix hix
+    have hl := BPC.parseSymindex_lengths idx ix hix
+    split at h
+    · cases h
+    · simp only at h
+      have hsome := BPC.iterSymbolsC_isSome text ix (BPC.lookupSeqC text ix BPC.Cache.empty pre).2 ix.addrs 0
+        (by omega)
+      split at h
+      · rename_i hnone
+        rw [hnone] at hsome
+        cases hsome
+      · rename_i it hit
+        cases h
+        exact ⟨by simp, (BPC.lookupSeq_spec text ix _ pre hl).2, (BPC.lookupSeq_spec text ix _ post hl).2⟩
+
+/-- **When the memo tables matter.** `BreakpadSymbolMapCache` memoises parsed PUBLIC / FUNC records under their
+file offset alone. If, among the symbol entries of the index, kind and offset determine the length (so for
+every index in which no two symbols start at the same file offset — what the creator writes), any sequence of
+lookups on one map answers, address by address, exactly what the memo-free `BP.lookup` of C10's model answers;
+the order and repetition of the lookups is unobservable. Only an index violating the hypothesis (a corrupted
+one) can make an answer depend on the history — `BPC.lookupC` models that case, the `entry-bounds` operations
+exercise it, and `C08_served_lookups_total` covers it. -/
+theorem C08_memo_unobservable (text : List UInt8) (ix : BP.Index) (addrs : List Nat)
+    (hdet : ∀ e ∈ ix.entries, ∀ e' ∈ ix.entries, e.kind = e'.kind → e.offset = e'.offset → e.len = e'.len) :
+    BPC.lookupSeq text ix BPC.Cache.empty addrs = addrs.map (BP.lookup text ix) :=
+  BPC.lookupSeq_eq text ix _ addrs hdet (BPC.cacheOk_empty text ix)
+
+/-- **Clause (f) on C10's symbol-map model.** Any text below 2^64 bytes, with or without a stored index of any
+contents: building the map panics only in the excluded region (a self-built index of 4 GiB or more, see
+`C08_symindex_layout_excluded`), in particular never at `parse_symindex_file(..).unwrap()`
+(symbol_map.rs:98/101); and on the map that results, every lookup of every address returns a result or
+nothing, with `symbol.address ≤ address` and a non-empty frame list. -/
+theorem C08_breakpad_map_total (pick : BP.Pick) (text : List UInt8) (stored : Option (List UInt8))
+    (hlen : text.length < BP.pow64) :
+    (BP.mapStored pick text stored = .panic →
+        ∃ ix, BP.preIndex pick [text] = .ix ix ∧ ¬ BP.totalLen ix < BP.pow32) ∧
+    (∀ ix a, BP.mapStored pick text stored = .ok ix →
+        BP.lookup text ix a ≠ .panic ∧
+        ∀ r, BP.lookup text ix a = .found r → r.symAddr ≤ a ∧ r.frames ≠ some []) := by
+  constructor
+  · intro h
+    unfold BP.mapStored at h
+    split at h
+    · cases h
+    · split at h
+      · cases h
+      · exact C10_no_panic pick [text] (C10_self_map_no_unwrap_panic pick text hlen h)
+  · intro ix a h
+    have hl : ix.addrs.length = ix.entries.length := by
+      have hself : BP.mapSelf pick text = .ok ix → ix.addrs.length = ix.entries.length := by
+        intro hs
+        unfold BP.mapSelf at hs
+        split at hs
+        · cases hs
+        · split at hs
+          · cases hs
+          · cases hs
+          · split at hs
+            · cases hs
+            · rename_i bytes _ ix' hp
+              cases hs
+              exact BPC.parseSymindex_lengths _ _ hp
+      unfold BP.mapStored at h
+      split at h
+      · cases h
+      · split at h
+        · rename_i ix' hst
+          cases h
+          cases stored with
+          | none => simp at hst
+          | some b => exact BPC.parseSymindex_lengths b _ (by simpa using hst)
+        · exact hself h
+    exact BPC.lookup_spec text ix a hl
+
+/-- a Breakpad lookup result as the symbolication layer sees it (`SyncAddressInfo`); `nm` / `fr` convert
+names and frames (any functions: demangling and path mapping do not matter here) -/
+def C08_bpInfo (nm : List UInt8 → String) (fr : BP.Frame → Sym.Frame) (r : BP.LookupResult) : Sym.AddrInfo :=
+  ⟨r.symAddr, r.size, nm r.name, match r.frames with | none => .none | some fs => .available (fs.map fr)⟩
+
+/-- **`/symbolicate/v5` over Breakpad files never hits an `unwrap`.** C07's model of `query_api` (every
+`unwrap`, `expect`, slice index and `u32` subtraction an explicit panic site) composed with C10's model of
+`lookup_sync`: if every library that loads is a Breakpad symbol map — of any text and any accepted index,
+valid or stale — then no request of any shape (any number of jobs, repeated / failing libraries, any
+addresses) reaches a panic site. This discharges symbolicate/mod.rs:228/231/237/252 and
+looked_up_addresses.rs:34/44 for the files in C08's quantifier. -/
+theorem C08_symbolicate_over_breakpad_total (look : Sym.Look) (extOrder) (hext : Sym.ExtOrderOk extOrder)
+    (req : Sym.Request) (nm : List UInt8 → String) (fr : BP.Frame → Sym.Frame)
+    (hbp : ∀ lib f, look lib = .ok f → ∃ text ix, ix.addrs.length = ix.entries.length ∧
+      ∀ a, f a = match BP.lookup text ix a with
+                 | .found r => some (C08_bpInfo nm fr r)
+                 | _ => none) :
+    ∀ site, Sym.queryApi look extOrder req ≠ .error (.panic site) := by
+  refine (C07_total look extOrder hext req ?_).2
+  intro lib a f info _ hl hfa
+  obtain ⟨text, ix, hlen, hf⟩ := hbp lib f hl
+  rw [hf a] at hfa
+  obtain ⟨_, hsp⟩ := BPC.lookup_spec text ix a hlen
+  cases hlk : BP.lookup text ix a with
+  | panic => simp [hlk] at hfa
+  | none => simp [hlk] at hfa
+  | found r =>
+    simp only [hlk, Option.some.injEq] at hfa
+    subst hfa
+    obtain ⟨h1, h2⟩ := hsp r hlk
+    refine ⟨h1, ?_⟩
+    simp only [C08_bpInfo]
+    cases hfr : r.frames with
+    | none => simp [Sym.FramesResult.resolved]
+    | some fs =>
+      simp only [Sym.FramesResult.resolved, ne_eq, Option.some.injEq, List.map_eq_nil_iff]
+      intro hnil
+      exact h2 (by rw [hfr, hnil])
+
+/-- … in particular over **served files**: let every library of the request be either unknown to the helper
+or a `.sym` text with an optional stored `.symindex`, both of ARBITRARY contents, turned into a symbol map by
+C10's `mapStored` (a map that fails to build — not a Breakpad file, no MODULE record, or the excluded ≥ 4 GiB
+index of `C08_breakpad_map_total` — is a load error here). Then `/symbolicate/v5` reaches no panic site, for
+every request. No hypothesis about the files is left. -/
+theorem C08_symbolicate_over_served_files_total (pick : BP.Pick)
+    (files : Sym.Lib → Option (List UInt8 × Option (List UInt8))) (err : Sym.Err)
+    (nm : List UInt8 → String) (fr : BP.Frame → Sym.Frame)
+    (extOrder) (hext : Sym.ExtOrderOk extOrder) (req : Sym.Request) :
+    let look : Sym.Look := fun lib =>
+      match files lib with
+      | none => .error err
+      | some (text, stored) =>
+        match BP.mapStored pick text stored with
+        | .ok ix => .ok fun a =>
+            match BP.lookup text ix a with
+            | .found r => some (C08_bpInfo nm fr r)
+            | _ => none
+        | _ => .error err
+    ∀ site, Sym.queryApi look extOrder req ≠ .error (.panic site) := by
+  intro look
+  apply C08_symbolicate_over_breakpad_total look extOrder hext req nm fr
+  intro lib f hl
+  simp only [look] at hl
+  split at hl
+  · cases hl
+  · rename_i text stored _
+    split at hl
+    · rename_i ix hm
+      cases hl
+      have hlen : ix.addrs.length = ix.entries.length := by
+        unfold BP.mapStored at hm
+        split at hm
+        · cases hm
+        · split at hm
+          · rename_i ix' hst
+            cases hm
+            cases stored with
+            | none => simp at hst
+            | some b => exact BPC.parseSymindex_lengths b _ (by simpa using hst)
+          · unfold BP.mapSelf at hm
+            split at hm
+            · cases hm
+            · split at hm
+              · cases hm
+              · cases hm
+              · split at hm
+                · cases hm
+                · rename_i bytes _ ix' hp
+                  cases hm
+                  exact BPC.parseSymindex_lengths _ _ hp
+      exact ⟨text, ix, hlen, fun a => rfl⟩
+    · cases hl
+
+/-! ### Clauses (a) and (b): the text `Api::query_api` returns -/
+
+/-- **The error object is JSON.** For every message (any bytes: quotes, backslashes, control characters,
+multi-byte characters), the text samply builds by hand on all its error paths —
+`json!({ "error": msg }).to_string()`, modelled as `JT.errorJson` and compared byte for byte with serde_json by
+the `errjson` / `badurl` operations — is accepted by the independent RFC 8259 recogniser `JT.topObject` as one
+object whose only key is `error`, holding a string. -/
+theorem C08_error_object_is_json (msg : List UInt8) :
+    JT.topObject (JT.errorJson msg) = some [(JT.kError, JT.Kind.str)] :=
+  JT.topObject_errorJson msg
+
+/-- **Every path, every body: a JSON object that is a result or carries an error message.** `JT.queryApiText`
+follows lib.rs:197-210 and the three `query_api_json` wrappers; `inner` is the outcome of the endpoint's
+fallible part (any function: it stands for every request body and every state of the symbol files). Provided
+the *serialized result* of an endpoint is an acceptable text (serde's derived `Serialize` of the three
+`Response` structs — third-party, assumed here and checked by `C08.judge` with the same recogniser on every
+response the exploration produces), the returned text is acceptable for every path — known or not — and every
+outcome, in particular for every error message. -/
+theorem C08_api_text_acceptable (path : List UInt8)
+    (inner : JT.Endpoint → Except (List UInt8) (List UInt8))
+    (hres : ∀ e json, JT.dispatch path = some e → inner e = .ok json → JT.acceptable path json = true) :
+    JT.acceptable path (JT.queryApiText path inner) = true := by
+  have herr : ∀ m, JT.acceptable path (JT.errorJson m) = true := by
+    intro m
+    simp [JT.acceptable, JT.topObject_errorJson, JT.isResponse, JT.kindOf]
+  unfold JT.queryApiText
+  cases hd : JT.dispatch path with
+  | none => exact herr _
+  | some e =>
+    simp only
+    cases hi : inner e with
+    | ok json => exact hres e json hd hi
+    | error m => exact herr m
+
+/-- an unknown path never gets a result, whatever the endpoints would answer -/
+theorem C08_unknown_path_is_error (path : List UInt8) (inner : JT.Endpoint → Except (List UInt8) (List UInt8))
+    (h : JT.dispatch path = none) :
+    JT.queryApiText path inner = JT.errorJson (JT.unrecognized ++ path) := by
+  simp [JT.queryApiText, h]
+
 /-! ### The three repaired defects: the pre-fix kernels panic on the recorded inputs -/
 
 /-- b11d9ebc: `/asm/v1` with `"size":"0xfffffff8"` — `disassembly_len + 15` overflowed `u32`. -/
@@ -212,6 +594,24 @@ example : DecContract C08_toyDec 4 := by
     · cases h
     · omega
 
+-- the toy decoder on 13 bytes (an invalid instruction at 4): the tied loop lists 0, 4 (invalid), 8 and reports 12
+example : Asm.decode 4 12 13 (fun p => C08T.convDec (C08_toyDec (([1, 2, 3, 4, 0, 0, 0, 0, 5, 6, 7, 8, 9] : List UInt8).drop p)))
+    = .done [⟨0, false⟩, ⟨4, true⟩, ⟨8, false⟩] 12 := by decide
+example : decodeLoop C08_toyDec 4 [1, 2, 3, 4, 0, 0, 0, 0, 5, 6, 7, 8, 9] 12 0 0 0 = .done 12 := by
+  rw [C08_decode_kernel_is_tied _ _ _ _ _ (by decide) (by decide)]
+  · decide
+  · intro s n h
+    unfold C08_toyDec at h
+    split at h
+    · cases h
+    · split at h
+      · cases h
+      · injection h with h; omega
+
+-- `{"results":[]}` is an acceptable answer of /symbolicate/v5 and of no other path; `{"error":null}` of none
+example : JT.acceptable JT.pathSymbolicate [123, 34, 114, 101, 115, 117, 108, 116, 115, 34, 58, 91, 93, 125] = true
+    ∧ JT.acceptable JT.pathAsm [123, 34, 114, 101, 115, 117, 108, 116, 115, 34, 58, 91, 93, 125] = false
+    ∧ JT.acceptable JT.pathAsm [123, 34, 101, 114, 114, 111, 114, 34, 58, 110, 117, 108, 108, 125] = false := by decide
 example : BsOk (bsearch1 0x1130 0x1140) 1 ∧ BsOk (.notFound 3) 3 := by decide
 example : asciiFollow [0x61, 0x2D, 0xC3, 0xA9, 0x2D, 0x31] = true
     ∧ utf8Shape [0x61, 0x2D, 0xC3, 0xA9, 0x2D, 0x31] = true := by decide
